@@ -40,7 +40,7 @@ def load_prop(pid):
 
 def load_known(pid=None):
     try:
-        with open(KNOWN_FILE) as f:
+        with open(KNOWN_FILE, encoding="utf-8") as f:
             ents = json.load(f)
     except FileNotFoundError:
         return []
@@ -301,14 +301,15 @@ def worker_main(prop_id, tier, seed, shard, nshards, out_path):
                 pass
             import locale as _loc
             res["violation"] = {"kind": v.kind, "detail": v.detail, "sig": v.sig, "case": case,
-                                "locale_encoding": _loc.getpreferredencoding(False)}
+                                "locale_encoding": _loc.getpreferredencoding(False),
+                                "loglevel": os.environ.get("HSVERIF_LOGLEVEL") or "off"}
     except BaseException as e:  # noqa
         res["error"] = "".join(traceback.format_exception(type(e), e, e.__traceback__))[-4000:]
     res.update(ctx.result())
     res["wall"] = time.time() - t0
     import locale
-    res["locale_encoding"] = locale.getpreferredencoding(False)
-    with open(out_path + ".tmp", "w") as f:
+    res["locale_encoding"] = locale.getpreferredencoding(False) + ("+DEBUG-logging" if os.environ.get("HSVERIF_LOGLEVEL") == "DEBUG" else "")
+    with open(out_path + ".tmp", "w", encoding="utf-8") as f:
         json.dump(res, f, default=str)
     os.replace(out_path + ".tmp", out_path)
     common.cleanup_scratch()
@@ -336,11 +337,11 @@ def replay_case(prop_id, case, tier="quick", exclude=None):
 def write_replay(prop_id, vio):
     os.makedirs(REPLAY_DIR, exist_ok=True)
     body = {"property": prop_id, "kind": vio["kind"], "detail": vio["detail"], "sig": vio["sig"],
-            "case": vio["case"], "locale_encoding": vio.get("locale_encoding", "UTF-8"),
+            "case": vio["case"], "locale_encoding": vio.get("locale_encoding", "UTF-8"), "loglevel": vio.get("loglevel", "off"),
             "how": f"/venv/bin/python /verif/check.py {prop_id} --replay <this file>"}
     name = f"{prop_id}-{jkey(vio['case'])}.json"
     path = os.path.join(REPLAY_DIR, name)
-    with open(path, "w") as f:
+    with open(path, "w", encoding="utf-8") as f:
         json.dump(body, f, indent=1, default=str)
     return path
 
@@ -361,7 +362,7 @@ def write_evidence(prop_id, mod, tier, seed, merged, wall, violations, extra=Non
           "assumptions": list(getattr(mod, "ASSUMPTIONS", [])), "wall_s": round(wall, 2),
           "violations": violations}
     path = os.path.join(EVIDENCE_DIR, f"{prop_id}.json")
-    with open(path + ".tmp", "w") as f:
+    with open(path + ".tmp", "w", encoding="utf-8") as f:
         json.dump(ev, f, indent=1, default=str)
     os.replace(path + ".tmp", path)
     return path
@@ -387,7 +388,7 @@ def orchestrate(prop_id, tier, seed, nshards=None, budget=None):
         rp = os.path.join(common.VERIF_DIR, e["replay"]) if e.get("replay") else None
         if not rp or not os.path.isfile(rp):
             continue
-        with open(rp) as f:
+        with open(rp, encoding="utf-8") as f:
             body = json.load(f)
         others = [o for o in load_known(prop_id) if o.get("status") == "finding" and o is not e
                   and o.get("id") != e.get("id")]
@@ -431,7 +432,10 @@ def orchestrate(prop_id, tier, seed, nshards=None, budget=None):
                "--seed", str(seed), "--worker", str(sh), str(nshards), out]
         # own session per worker: the whole process group (forked children, manager servers of the
         # code under test) can be killed with it
-        procs.append((sh, out, subprocess.Popen(cmd, env=env_ascii if sh % 2 else env, cwd=common.VERIF_DIR, start_new_session=True)))
+        e = dict(env_ascii if sh % 2 else env)
+        if sh % 4 >= 2:
+            e["HSVERIF_LOGLEVEL"] = "DEBUG"      # (shards 2, 3, 6, 7, ...: the store's DEBUG logging is enabled)
+        procs.append((sh, out, subprocess.Popen(cmd, env=e, cwd=common.VERIF_DIR, start_new_session=True)))
     results, violation, errors = {}, None, []
     pending = dict((sh, (out, p)) for sh, out, p in procs)
     max_wall = float(os.environ.get("HSVERIF_MAX_WALL") or (1800 if tier == "quick" else 6 * 3600))
@@ -448,7 +452,7 @@ def orchestrate(prop_id, tier, seed, nshards=None, budget=None):
                 continue
             del pending[sh]
             if os.path.isfile(out):
-                with open(out) as f:
+                with open(out, encoding="utf-8") as f:
                     r = json.load(f)
                 results[sh] = r
                 if r.get("error"):
@@ -474,7 +478,7 @@ def orchestrate(prop_id, tier, seed, nshards=None, budget=None):
     for r in results.values():
         e = r.get("locale_encoding", "?")
         encs[e] = encs.get(e, 0) + 1
-    merged["classes"].update({f"shards-with-locale-encoding={k}": v for k, v in encs.items()})
+    merged["classes"].update({f"shards-with-environment={k}": v for k, v in encs.items()})
     for sh in sorted(results):
         r = results[sh]
         merged["evaluations"] += r.get("evaluations", 0)
@@ -543,7 +547,7 @@ def fuzz_campaign(prop_id, tier, seed, nshards, base, env, merged):
         if not os.path.isfile(out):
             errors.append((sh, f"fuzz worker exited {p.returncode} without a result"))
             continue
-        with open(out) as f:
+        with open(out, encoding="utf-8") as f:
             r = json.load(f)
         execs += r.get("fuzz_execs", 0)
         evals += r.get("evaluations", 0)
@@ -593,16 +597,20 @@ def main(argv=None):
         os.execv(sys.executable, [sys.executable] + sys.argv)
     try:
         if a.replay:
-            with open(a.replay) as f:
+            with open(a.replay, encoding="utf-8") as f:
                 body = json.load(f)
             import locale
             want = str(body.get("locale_encoding", "UTF-8"))
-            if not want.upper().startswith("UTF") and locale.getpreferredencoding(False).upper().startswith("UTF") \
-                    and not os.environ.get("HSVERIF_REPLAY_LOCALE_SET"):
-                # the failure was found by a shard running under a non-UTF-8 locale: replay under the same
-                os.environ.update(LC_ALL="C", LANG="C", PYTHONCOERCECLOCALE="0", PYTHONUTF8="0", PYTHONIOENCODING="utf-8",
-                                  HSVERIF_REPLAY_LOCALE_SET="1")
-                os.execv(sys.executable, [sys.executable] + sys.argv)
+            if not os.environ.get("HSVERIF_REPLAY_ENV_SET"):
+                # the failure was found by a shard with a particular environment (non-UTF-8 locale, DEBUG logging): replay under the same
+                upd = {}
+                if not want.upper().startswith("UTF") and locale.getpreferredencoding(False).upper().startswith("UTF"):
+                    upd.update(LC_ALL="C", LANG="C", PYTHONCOERCECLOCALE="0", PYTHONUTF8="0", PYTHONIOENCODING="utf-8")
+                if body.get("loglevel") == "DEBUG" and os.environ.get("HSVERIF_LOGLEVEL") != "DEBUG":
+                    upd["HSVERIF_LOGLEVEL"] = "DEBUG"
+                if upd:
+                    os.environ.update(upd, HSVERIF_REPLAY_ENV_SET="1")
+                    os.execv(sys.executable, [sys.executable] + sys.argv)
             v = replay_case(a.prop, body["case"], a.tier)
             if v is not None:
                 print(f"VIOLATION property={a.prop} replay={a.replay}")
